@@ -205,7 +205,9 @@ func TestVerif_C06_RecLen(t *testing.T) {
 		}
 		var r rec
 		_, err := ll.Put(
-			func(pk solana.PublicKey) (indexes.OffsetAndSize, error) { return indexes.OffsetAndSize{Offset: 77, Size: 99}, nil },
+			func(pk solana.PublicKey) (indexes.OffsetAndSize, error) {
+				return indexes.OffsetAndSize{Offset: 77, Size: 99}, nil
+			},
 			func(pk solana.PublicKey, offset uint64, ln uint32) error { r.off, r.ln = offset, ln; return nil },
 			linkedlog.KeyToOffsetAndSizeAndBlocktime{Key: c06A, Values: vals},
 		)
